@@ -9,6 +9,8 @@ package jsontext
 import (
 	"math"
 	"math/big"
+
+	"github.com/go-json-experiment/json/internal/jsonwire"
 )
 
 // Bounded stand-ins. The functions below are built on strings.ReplaceAll /
@@ -100,3 +102,88 @@ func boundedU64OK(f float64, r uint64) bool {
 //@ property C10
 //@ bounded float64 comparison and conversion (floats are opaque to the verifier)
 //@ ensures saturating-truncation: boundedU64OK(f64, result)
+
+// objectNamespace.insert switches from a linear search to a Go map once the
+// namespace holds more than 64 names (or 1 KiB of names); Go maps are outside the
+// verifier's subset. Bounded stand-in: namespaces of 0..80 distinct names are built
+// through insert itself, then one more name - new, or equal to an earlier one (the
+// first, the most recent, the 64th/65th, ...), plain or in escaped spelling - is
+// inserted and the answer is checked against an independent scan of the recorded
+// names.
+
+// boundedName(i) is a short name that is unique per i.
+func boundedName(i int) []byte {
+	return []byte{'n', byte('a' + i/26%26), byte('a' + i%26)}
+}
+
+// boundedBuildNamespace returns a namespace holding boundedName(0..k-1).
+func boundedBuildNamespace(k int) *objectNamespace {
+	ns := new(objectNamespace)
+	for i := 0; i < k; i++ {
+		if !ns.insert(boundedName(i), false) {
+			panic("bounded stand-in: a fresh name was reported as a duplicate")
+		}
+	}
+	return ns
+}
+
+// boundedInsertOK checks insert's answer against the namespace's own records after
+// the call: a successful insert recorded the name last and no earlier entry equals
+// it; a refused one left an equal earlier entry.
+func boundedInsertOK(ns *objectNamespace, unquoted []byte, inserted bool) bool {
+	n := ns.length()
+	if inserted {
+		if n == 0 || string(ns.getUnquoted(n-1)) != string(unquoted) {
+			return false
+		}
+		n--
+	}
+	found := false
+	for i := 0; i < n; i++ {
+		if string(ns.getUnquoted(i)) == string(unquoted) {
+			found = true
+		}
+	}
+	return found != inserted
+}
+
+// boundedPick maps a generated integer to an interesting index in [0, k).
+func boundedPick(sel uint, k int) int {
+	switch sel % 6 {
+	case 0:
+		return 0
+	case 1:
+		return k - 1
+	case 2:
+		return min(63, k-1)
+	case 3:
+		return min(64, k-1)
+	case 4:
+		return min(65, k-1)
+	}
+	return int(sel/6) % k
+}
+
+// boundedHash spreads the generated bytes over the selector space.
+func boundedHash(b []byte) uint {
+	h := uint(2166136261)
+	for _, c := range b {
+		h = (h ^ uint(c)) * 16777619
+	}
+	return (h ^ uint(len(b))*2654435761) >> 3
+}
+
+// boundedUnq is the name insert is given, unquoted when it is passed in quoted form.
+func boundedUnq(name []byte, quoted bool) []byte {
+	if quoted {
+		b, _ := jsonwire.AppendUnquote(nil, name)
+		return b
+	}
+	return name
+}
+
+//@ func (*objectNamespace).insert
+//@ property C01 C02 C08
+//@ bounded Go maps are outside the verifier's subset (the namespace switches to a map beyond 64 names)
+//@ prepare sel := boundedHash(name); k := int(sel % 81); ns = boundedBuildNamespace(k); if quoted && k > 0 { name = boundedName(boundedPick(sel/81, k)) } else { name = append([]byte("x"), boundedName(int(sel%600))...) }; quoted = sel%2 == 1; if quoted { name = append(append([]byte{'"'}, name...), '"'); if sel%4 == 3 { name = append([]byte(`"\u006e`), name[2:]...) } }
+//@ ensures duplicate-detection: boundedInsertOK(ns, boundedUnq(name, quoted), result)
